@@ -14,6 +14,7 @@ def run(ctx):
         "hand-written interleaving model of runtime/workerpool/workerpool.go + task.go and of Stack.Push/PopOrWait/SignalShutdown (Model.v), tied to the code by the correspondence check only",
         "Counter.WaitIsZero and WaitGroup.Wait are modelled as steps enabled iff the awaited condition holds (condition-variable discipline of Counter: C17); critical sections without blocking calls are single steps",
         "group.go: hand-written model (Group.v) of the counter aggregation in which one Counter.update/set with its whole subscriber chain pool -> group -> parent group is ONE atomic step (the code runs the chain under the valueMutex of every counter on the path, locks taken child -> parent); tied to the code by sequential lockstep histories and free concurrent runs (sub-command group)",
+        "option surface (round 2): the effective worker count / cancel flag / panic flag of a pool is computed in Coq from the caller's option list and the constructor (New or Group.CreatePool) by Options.v (defaults, group default, caller's options in order, last wins; theorems C16_group_pool_options, C16_pool_options_resolved); that options.Apply applies options in order and that the shutdown-signal channel is sized after the options is tied to the code by the correspondence only (scripts over option lists, worker counts around and above NumCPU / 2*NumCPU / 4*NumCPU with every worker busy at Shutdown)",
         "shutdown termination is proved as absence of non-final stuck states plus progress (C16_shutdown_terminates, C16_shutdown_progress) for every schedule of the repaired model; that every fair maximal run is finite (no livelock) is not proved - covered by the watchdogs of the correspondence runs only",
     ])
     if thorough:
@@ -28,6 +29,7 @@ def run(ctx):
     ctx.assumptions += [
         "tasks terminate and block on nothing but their own nested Submit calls (harness: gated tasks are schedule restrictions of the runner, not part of the model's steps)",
         "at least one worker (WithWorkerCount >= 1)",
+        "the pool theorems hold for every worker count n >= 1; the correspondence samples n in 1..4 and, since round 2, large n too: NumCPU-1..NumCPU+1, 2*NumCPU-1..2*NumCPU+1 (2*NumCPU = the default when WithWorkerCount is left out), 4*NumCPU, 4*NumCPU+1 (values in evidence coverage.extra.c16_worker_counts_sampled), each with all workers executing gated, re-submitting tasks at the moment of Shutdown",
         "ShutdownComplete.Wait is not called concurrently with Start by the user (sync.WaitGroup reuse rule; the pool itself serialises its own Wait/Add)",
         "scripts are generated so that the settled state does not depend on the schedule (no holds with cancel-on-shutdown, single leaf submits while the dispatcher is held); free-running runs are judged by predicates only",
     ]
